@@ -140,20 +140,44 @@ def ensure_seqz(q, workdir):
     ll = os.path.join(workdir, "conc_units.ll")
     cmd = ["clang-14", "-O1", "-fno-unroll-loops", "-fno-vectorize", "-fno-slp-vectorize", "-mllvm", "-inline-threshold=100000",
            "-DUPIPE_VERIF", "-I" + REPO + "/include", "-I" + REPO, "-S", "-emit-llvm"] + \
-          ["-D" + d for d in q.seqz if not d.startswith("ONLY=")] + \
+          ["-D" + d for d in q.seqz if not d.startswith(("ONLY=", "IMMUTABLE="))] + \
           [os.path.join(HARNESS, "conc_units.c"), "-o", ll]
     rc, so, se, w, _ = run(cmd, 120, limit=False)
     if rc != 0:
         raise RuntimeError("clang failed on conc_units.c: " + se[-1500:])
     only = None
+    immutable = []
     for d in q.seqz:
         if d.startswith("ONLY="):
             only = d[5:].split(",")
-    src, names, ext = seqz.translate(open(ll).read(), only)
+        if d.startswith("IMMUTABLE="):
+            immutable = d[10:].split(",")
+    rc, so, se, w, _ = run(["clang-14", "-DUPIPE_VERIF", "-I" + REPO + "/include", "-I" + REPO, "-Xclang", "-fdump-record-layouts",
+                            "-O1", "-S", "-emit-llvm", "-o", os.devnull] + ["-D" + d for d in q.seqz if not d.startswith(("ONLY=", "IMMUTABLE="))] +
+                           [os.path.join(HARNESS, "conc_units.c")], 120, limit=False)
+    layouts = seqz.parse_layouts(so) if rc == 0 else {}
+    src, names, ext = seqz.translate(open(ll).read(), only, immutable, layouts)
     if only and sorted(names) != sorted(only):
         raise RuntimeError("seqz: functions %s not found in the IR (got %s)" % (only, names))
     with open(gen, "w") as f:
         f.write(src + "\n")
+
+
+def seqz_validate():
+    """translation validation (every run): generated code vs the real inline functions, natively"""
+    wd = scratch_dir()
+    try:
+        q = Query(name="seqz-validate", harness="seqz_validate.c", seqz=[])
+        ensure_seqz(q, wd)
+        binp = os.path.join(wd, "val")
+        rc, so, se, w, _ = run(["gcc", "-std=gnu99", "-O1", "-w", "-I" + wd, "-I" + REPO + "/include", "-I" + REPO,
+                                os.path.join(HARNESS, "seqz_validate.c"), "-o", binp, "-lpthread"], 300, limit=False)
+        if rc != 0:
+            return False, "validator build failed: " + se[-800:]
+        rc, so, se, w, _ = run([binp], 120, limit=False)
+        return rc == 0 and "SEQZ-VALIDATION OK" in so, (so.strip().splitlines() or [se[-300:]])[-1]
+    finally:
+        shutil.rmtree(wd, ignore_errors=True)
 
 
 def goto_cc(q, out, extra_defs=()):
@@ -487,6 +511,15 @@ def run_check(prop, tier, queries, meta):
     t0 = time.time()
     os.makedirs(EVIDENCE, exist_ok=True)
     seed = int(os.environ.get("VERIF_SEED", "0") or 0)
+    tv = None
+    if any(q.seqz is not None for q in queries):
+        ok, msg = seqz_validate()
+        tv = {"ok": ok, "result": msg,
+              "method": "harness/seqz_validate.c: the generated resumable C, run without preemption, against the real inline "
+                        "functions on deterministic pseudo-random single-thread scenarios (results and final memory compared)"}
+        if not ok:
+            print("INCONCLUSIVE property=%s: translation validation of the sequentializer failed: %s" % (prop, msg))
+            return 2
     queries, twins = expand_known(queries, prop)
     allq = list(queries) + [t for t, _ in twins]
     results = []
@@ -568,6 +601,7 @@ def run_check(prop, tier, queries, meta):
         "per_query": [{"name": r.query.name, "status": r.status, "props": r.n_props, "vccs": r.vccs,
                        "vars": r.variables, "solver_s": round(r.solver_s, 3), "wall_s": round(r.wall_s, 2),
                        "rss_mb": r.rss_mb, "witness": r.witness} for r in main][:400],
+        "translation_validation": tv,
         "known_findings_reported": known_lines,
         "stretch_queries_undecided_outside_the_claim": [r.query.name for r in stretch_undecided],
         "notes_out_of_bounds_pointer_formed_for_comparison": sorted({n for r in main for n in r.notes})[:40],
